@@ -228,17 +228,31 @@ def check_case(c):
                         return f'deformed noise: P_D({s}) on qubit {q} is not P(D({s}))'
         except TypeError:
             pass
-        # history independence
+        # history independence: every derived datum of a used-then-deformed object equals a fresh one's
         others = [d for d in K.deformations(cls)[1:]]
         obj = K.build(cls, size)
-        obj.stabilizer_matrix
+        K.warm(obj)
         for nm2, kw2 in others[:2]:
             obj.deform(nm2, **kw2)
-            obj.logicals_x
+            K.warm(obj)
         obj.deform(name, **kw)
-        if K.dense(obj.stabilizer_matrix) != K.dense(d1.stabilizer_matrix) or \
-                K.dense(obj.logicals_x) != K.dense(d1.logicals_x) or K.dense(obj.logicals_z) != K.dense(d1.logicals_z):
-            return 'result of deform depends on earlier deform calls / property accesses on the same object'
+
+        def derived(c):
+            out = {'H': K.dense(c.stabilizer_matrix), 'Lx': K.dense(c.logicals_x), 'Lz': K.dense(c.logicals_z),
+                   'n': c.n, 'k': c.k, 'd': int(c.d), 'x_indices': [bool(b) for b in c.x_indices],
+                   'z_indices': [bool(b) for b in c.z_indices], 'is_css': bool(c.is_css)}
+            if c.is_css:
+                out['Hx'] = K.dense(c.Hx)
+                out['Hz'] = K.dense(c.Hz)
+            probe = np.random.default_rng(9).integers(0, 2, 2 * c.n).astype('uint8')
+            out['syndrome(probe)'] = [int(x) for x in c.measure_syndrome(probe)]
+            out['effect(probe)'] = [int(x) for x in c.logical_errors(probe)]
+            return out
+        da, db = derived(obj), derived(d1)
+        for key in db:
+            if da.get(key) != db[key]:
+                return (f'after use + deform on one object, {key} differs from a freshly deformed code '
+                        '(result of deform depends on earlier deform calls / property accesses)')
     except Exception as e:  # noqa
         return f'raised {type(e).__name__}: {e}'
     return None
